@@ -21,8 +21,8 @@ ID = "C11"
 DELTA = ST.DELTA
 
 TIERS = {
-    "quick": {"runs": 12000, "stat_jobs": 36, "stat_M": 6000, "selftest": 16, "budget_s": 240, "chunk": 150},
-    "thorough": {"runs": 160000, "stat_jobs": 144, "stat_M": 30000, "selftest": 64, "budget_s": 1500, "chunk": 400},
+    "quick": {"runs": 12000, "stat_jobs": 36, "stat_M": 20000, "selftest": 16, "budget_s": 240, "chunk": 150},
+    "thorough": {"runs": 160000, "stat_jobs": 144, "stat_M": 100000, "selftest": 64, "budget_s": 1500, "chunk": 400},
 }
 
 RULE = (
@@ -577,13 +577,32 @@ def execute_stat(scn, ctx):
                     w = int(np.argmax(np.abs(m - 1) - tol))
                     viol.append({"invariant": "C11.unbiased_multiplicity", "tags": tags,
                                  "detail": f"{nm} value #{w}: mean multiplicity {m[w]:.4f}, expected 1 +- {tol[w]:.4f} (M={Mn})"})
-        ok, m, tol = ST.mean_test(np.minimum(sizes, cap), src_sizes, float(cap))
+        # Sizes are clipped to a window of +-8 sqrt(N_all) around the source's sizes before averaging: under any
+        # scheme with the documented means and binomial/Poisson-like spread the window is left with probability
+        # < 1e-14, so clipping does not move the mean, but it shrinks the range term of the bound by an order of
+        # magnitude; a shifted mean still shows (it saturates at the window's edge at worst).
+        half = 8.0 * np.sqrt(max(src.nb_all_samples, 1))
+        win = np.clip(sizes - src_sizes[None, :], -half, half) + half
+        ok, m, tol = ST.mean_test(win, np.full(4, half), 2 * half)
+        m = m - half + src_sizes
         n_tests += 4
         if not ok.all():
             w = int(np.argmin(ok))
             viol.append({"invariant": "C11.unbiased_sizes", "tags": tags,
                          "detail": f"mean (hard pos, hard neg, easy pos, easy neg) = {np.round(m, 3).tolist()}, source {src_sizes.tolist()}, "
                                    f"tolerance {np.round(tol, 3).tolist()} (M={Mn}); component {w} off"})
+        # successive samples must be independent: product of the centred hard-class sizes of disjoint pairs
+        if Mn >= 2000 and not (cfg.get("stratified_sampling") == "by_label" and eff == "replacement"):
+            sd = np.maximum(sizes[:, :2].std(axis=0, ddof=1), 1e-9)
+            z = (sizes[:, :2] - sizes[:, :2].mean(axis=0)) / sd
+            pairs = np.clip(z[0:-1:2] * z[1::2], -16.0, 16.0) + 16.0
+            ok, mm, tol = ST.mean_test(pairs, np.full(2, 16.0), 32.0)
+            n_tests += 2
+            if not ok.all():
+                w = int(np.argmin(ok))
+                viol.append({"invariant": "C11.samples_independent", "tags": tags,
+                             "detail": f"lag-1 correlation of the {'positive' if w == 0 else 'negative'} class size between successive samples is "
+                                       f"{mm[w] - 16.0:.3f} +- {tol[w]:.3f}, expected 0 (M={Mn})"})
     trace = [["stat", tags, Mn, hashlib.sha1(cp.tobytes() + cn.tobytes() + sizes.tobytes()).hexdigest()[:16]]]
     return {
         "violations": viol, "trace": trace,
